@@ -130,6 +130,11 @@ func ErrOperationWithProvidedOperationNameNotFound(operationName string) (err Ex
 	return err
 }
 
+func ErrSubscriptionRootFieldMustNotBeIntrospection(subscriptionName ast.ByteSlice) (err ExternalError) {
+	err.Message = fmt.Sprintf("subscription: %s root field must not be an introspection field", subscriptionName)
+	return err
+}
+
 func ErrSubscriptionMustOnlyHaveOneRootSelection(subscriptionName ast.ByteSlice) (err ExternalError) {
 	err.Message = fmt.Sprintf("subscription: %s must only have one root selection", subscriptionName)
 	return err
